@@ -294,6 +294,15 @@ def _install_refs(w):
         return it.resolve(v)
 
     def idx_of(it, m, key):
+        from .sym import VDyn
+        if isinstance(key, VDyn):
+            # a dynamic value used as the key of a str-keyed dict: supported where the path (or the
+            # clause) already knows it is a str - the key is then its string projection
+            tg = sym.tag(key.t) == sym.TAGS["str"]
+            if it.st.spec or it.decide(tg):
+                key = VStr(arr=sym.as_sarr(key.t), lo=z3.IntVal(0), hi=sym.as_slen(key.t))
+            else:
+                raise Unsupported(f"ordered map key {key!r} that is not a str")
         if not isinstance(key, VStr):
             raise Unsupported(f"ordered map key {key!r}")
         kv = sym.as_view(key)
